@@ -1358,6 +1358,267 @@ func TestPropFrames(t *testing.T) {
 }
 
 // ---------------------------------------------------------------------------
+// 4b. frames pipelined behind the msize-lowering Tversion
+
+// PipeCase: the Tversion and the frame(s) behind it are written without
+// waiting for the Rversion. The limit a frame is held to is the one in force
+// when that frame is reached in the byte stream, i.e. the negotiated one,
+// however the stream is cut into transport reads.
+type PipeCase struct {
+	SrvMsize uint32 `json:"srv_msize"`
+	CliMsize uint32 `json:"cli_msize"`
+	Dotu     bool   `json:"dotu"`
+	Size     uint32 `json:"size"`
+	Mode     string `json:"mode"` // hdr: 7-byte header only; full: a complete request of that size
+	Mid      bool   `json:"mid"`  // a small legal request between the Tversion and the frame
+	Cut      int    `json:"cut"`  // 0: one write; n > 0: two writes, the first of n bytes
+}
+
+// attachOfSize builds a well-formed Tattach (fid 0, root) of exactly n bytes,
+// or nil when no such Tattach exists in the dialect.
+func attachOfSize(n int, dotu bool, tag uint16) *ref9p.Msg {
+	m := &ref9p.Msg{Type: ref9p.Tattach, Tag: tag, Fid: 0, Afid: ref9p.NOFID, Uname: "root", Nuname: 0}
+	base := 7 + 4 + 4 + 2 + 4 + 2
+	if dotu {
+		base += 4
+		if n < base {
+			m.Uname = "" // 9P2000.u resolves the numeric id
+			base -= 4
+		}
+	}
+	if n < base || n-base > 65535 {
+		return nil
+	}
+	m.Aname = strings.Repeat("a", n-base)
+	return m
+}
+
+// awaitDrop waits until the server has closed the connection; it is a
+// violation when the server, having consumed every byte, goes back to reading.
+func awaitDrop(l *link, what string) error {
+	for i := 0; ; i++ {
+		if l.end.PeerClosed() || l.w.libClosed() {
+			return nil
+		}
+		if l.w.waiting(l.sent) {
+			time.Sleep(2 * time.Millisecond)
+			if l.w.waiting(l.sent) && !l.end.PeerClosed() {
+				return violf("%s did not make the server drop the connection: it consumed all %d bytes and went back to reading", what, l.sent)
+			}
+		}
+		if i > 20000 {
+			return hangErr(what + ": the server neither closed the connection nor went back to reading")
+		}
+		time.Sleep(500 * time.Microsecond)
+	}
+}
+
+func runPipe(c *PipeCase) error {
+	S := eff(c.SrvMsize)
+	sv := script.NewServer(script.Config{Msize: c.SrvMsize, Dotu: true})
+	l := dialSrv(sv.Srv, "c12p", S)
+	l.sv = sv
+	defer l.close()
+	ver := "9P2000"
+	if c.Dotu {
+		ver = "9P2000.u"
+	}
+	refuse, M, wver := expect(S, c.CliMsize, true, []byte(ver))
+	if refuse {
+		return fmt.Errorf("harness: pipelined cases need a Tversion that is accepted")
+	}
+	dotu := wver == "9P2000.u"
+	stream := ref9p.Encode(&ref9p.Msg{Type: ref9p.Tversion, Tag: ref9p.NOTAG, Msize: c.CliMsize, Version: ver}, false)
+	var midTag uint16
+	if c.Mid {
+		midTag = l.nextTag()
+		stream = append(stream, ref9p.Encode(&ref9p.Msg{Type: ref9p.Tclunk, Tag: midTag, Fid: 4242}, dotu)...)
+	}
+	tag := l.nextTag()
+	var fm *ref9p.Msg
+	var data []byte
+	if c.Mode == "full" {
+		if fm = attachOfSize(int(c.Size), dotu, tag); fm == nil && (c.Size == 17 || c.Size >= 19) && c.Size <= 4*defMsize {
+			fm = walkOfSize(int(c.Size), tag)
+		}
+	}
+	if fm != nil {
+		data = ref9p.Encode(fm, dotu)
+		if len(data) != int(c.Size) {
+			return fmt.Errorf("harness: built a request of %d bytes, wanted %d", len(data), c.Size)
+		}
+	} else {
+		data = make([]byte, 7)
+		binary.LittleEndian.PutUint32(data, c.Size)
+		data[4] = ref9p.Tattach
+		binary.LittleEndian.PutUint16(data[5:], tag)
+		if c.Mode == "full" {
+			n := 16
+			if c.Size >= 7 && c.Size < 4*defMsize {
+				n = int(c.Size) - 7
+			}
+			data = append(data, script.PRF("filler", n)...)
+		}
+	}
+	stream = append(stream, data...)
+	if c.Cut > 0 && c.Cut < len(stream) {
+		l.write(stream[:c.Cut])
+		l.write(stream[c.Cut:])
+	} else {
+		l.write(stream)
+	}
+	legal := c.Size >= 7 && c.Size <= M
+	what := fmt.Sprintf("a frame announcing %d bytes (%s) pipelined behind the Tversion that lowers msize from %d to %d (cut %d of %d)", c.Size, c.Mode, S, M, c.Cut, len(stream))
+	hx.Label(fmt.Sprintf("pipelined %s legal=%v cut=%v mid=%v", c.Mode, legal, c.Cut > 0, c.Mid))
+
+	// collect what the server writes; the Rversion is checked when it is seen
+	// (a server that hangs up may drop replies it had queued)
+	sawVersion := false
+	check := func(f []byte) (*ref9p.Msg, error) {
+		if !sawVersion {
+			r, _, derr := ref9p.Decode(f, false)
+			if derr != nil || r.Type != ref9p.Rversion || r.Tag != ref9p.NOTAG {
+				return nil, violf("%s: the first frame from the server is not the Rversion: %x", what, clip(f))
+			}
+			if r.Msize != M || r.Version != wver {
+				return nil, violf("Tversion msize=%d version=%q against a server limit of %d yields msize %d version %q, want %d %q", c.CliMsize, ver, S, r.Msize, r.Version, M, wver)
+			}
+			sawVersion = true
+			l.M, l.dotu = M, dotu
+			return r, nil
+		}
+		if uint64(len(f)) > uint64(M) {
+			return nil, violf("%s: the server sent a frame of %d bytes", what, len(f))
+		}
+		r, _, derr := ref9p.Decode(f, dotu)
+		if derr != nil {
+			return nil, violf("%s: the server sent a frame that is not well-formed in the negotiated dialect: %v: %x", what, derr, clip(f))
+		}
+		return r, nil
+	}
+	if legal && fm != nil {
+		// an ordinary request within the negotiated msize: it must be served
+		for {
+			f, err := l.raw()
+			if err == errClosed {
+				return violf("%s: a well-formed %s within msize was dropped", what, ref9p.TypeName(fm.Type))
+			}
+			if err != nil {
+				return err
+			}
+			r, err := check(f)
+			if err != nil {
+				return err
+			}
+			if r.Type == ref9p.Rversion || (c.Mid && r.Tag == midTag) {
+				continue
+			}
+			if r.Tag != tag || (r.Type != fm.Type+1 && r.Type != ref9p.Rerror) {
+				return violf("%s: answered with %x", what, clip(f))
+			}
+			if fm.Type == ref9p.Tattach {
+				if n, _ := countEnter(sv.S, 0); n != 1 || r.Type != ref9p.Rattach {
+					return violf("%s: a well-formed Tattach within msize was answered %s after %d implementation calls", what, ref9p.TypeName(r.Type), n)
+				}
+			}
+			return nil
+		}
+	}
+	if legal {
+		time.Sleep(time.Millisecond)
+		if n, w := countEnter(sv.S, 0); n != 0 {
+			return violf("%s: a malformed/incomplete frame reached the implementation (%s)", what, w)
+		}
+		return nil
+	}
+	if err := awaitDrop(l, what); err != nil {
+		if n, w := countEnter(sv.S, 0); n != 0 {
+			return fmt.Errorf("%w; implementation calls: %d (%s)", err, n, w)
+		}
+		return err
+	}
+	time.Sleep(time.Millisecond)
+	if n, w := countEnter(sv.S, 0); n != 0 {
+		return violf("%s reached the implementation (%s)", what, w)
+	}
+	for {
+		f, err := l.raw()
+		if err == errClosed {
+			return nil
+		}
+		if err != nil {
+			return err
+		}
+		r, err := check(f)
+		if err != nil {
+			return err
+		}
+		if r.Tag == tag && fm != nil && r.Type == fm.Type+1 {
+			return violf("%s was answered with %s", what, ref9p.TypeName(r.Type))
+		}
+	}
+}
+
+func execPipe(pc *PipeCase) error {
+	hx.Journal("pipelined", pc)
+	hx.Eval()
+	hx.Sample("pipelined", pc)
+	if pc.Size > min32(eff(pc.SrvMsize), pc.CliMsize) && pc.Size <= eff(pc.SrvMsize) {
+		hx.NonTrivial("pipelined", pc.SrvMsize, pc.CliMsize, pc.Dotu, pc.Size, pc.Mode, pc.Mid, pc.Cut)
+	}
+	return finish(runPipe(pc))
+}
+
+func TestEnumPipelined(t *testing.T) {
+	idx, n := 0, 0
+	one := func(pc *PipeCase) {
+		idx++
+		if hx.NShards > 1 && idx%hx.NShards != hx.Shard {
+			return
+		}
+		n++
+		if err := execPipe(pc); err != nil {
+			hx.Violation("pipelined", pc, err.Error())
+			t.Fatalf("%+v: %v", pc, err)
+		}
+	}
+	for _, s := range []uint32{0, 8192, 1024} {
+		S := eff(s)
+		for _, c := range []uint32{24, 25, 64, 128, 1000} {
+			if c >= S {
+				continue
+			}
+			for _, dotu := range []bool{false, true} {
+				for _, sz := range uniq([]uint32{0, 6, c - 1, c, c + 1, c + 2, 2 * c, 320, S - 1, S, S + 1, 1 << 31}) {
+					for _, mode := range []string{"hdr", "full"} {
+						for _, mid := range []bool{false, true} {
+							one(&PipeCase{SrvMsize: s, CliMsize: c, Dotu: dotu, Size: sz, Mode: mode, Mid: mid})
+						}
+					}
+				}
+			}
+		}
+	}
+	// the verdict must not depend on how the stream is cut into reads: every
+	// split point of Tversion + frame for two small configurations
+	for _, cf := range [][2]uint32{{1024, 64}, {1024, 24}} {
+		for _, dotu := range []bool{false, true} {
+			for _, sz := range []uint32{cf[1] - 1, cf[1], cf[1] + 1, 320, 1024, 1025} {
+				vlen := 13 + 6
+				if dotu {
+					vlen += 2
+				}
+				for cut := 1; cut < vlen+int(sz); cut++ {
+					one(&PipeCase{SrvMsize: cf[0], CliMsize: cf[1], Dotu: dotu, Size: sz, Mode: "full", Cut: cut})
+				}
+			}
+		}
+	}
+	hx.ExtraAdd("pipelined_probes", int64(n))
+	hx.Exhaustive("frames pipelined behind the msize-lowering Tversion in one write: server msize {default, 8192, 1024} x client msize {24, 25, 64, 128, 1000} x dialect x announced size {0, 6, c-1, c, c+1, c+2, 2c, 320, s-1, s, s+1, 2^31} x {header only, complete Tattach/Twalk of that size} x {directly behind, behind one small request}; and every split point of Tversion + frame for server 1024 / client {64, 24} x sizes {c-1, c, c+1, 320, 1024, 1025}")
+}
+
+// ---------------------------------------------------------------------------
 // 5. Ufs: Tread counts, stat and error replies of a real file server
 
 type UfsCase struct {
@@ -1582,6 +1843,11 @@ func replayEnv(t *testing.T, e *hx.Envelope) {
 		cv = &c
 		hx.Journal(e.Test, &c)
 		err = finish(runFrame(&c))
+	case "pipelined":
+		var c PipeCase
+		dec(&c)
+		cv = &c
+		err = execPipe(&c)
 	case "ufs":
 		var c UfsCase
 		dec(&c)
